@@ -94,6 +94,32 @@ def scenarios(which):
             if ref.get() != g({"x": 1}, {1}):
                 return dict(violation=True, cases=cases, what="call_and_shelve(...).get() differs", witness="g")
 
+            # every call the plain function accepts is accepted by the cached wrapper: parameters named like the wrapper's own
+            if which in ("all", "C06"):
+                for pname in ("self", "func", "args", "kwargs", "call_id", "shelving"):
+                    m_like = define("def m(%s, x=1):\n    return ('m', %s, x)\n" % (pname, pname), "m", "modkwname_" + pname)
+                    cm_ = mem.cache(m_like)
+                    kw_any = define("def k(**kw):\n    return sorted(kw.items())\n", "k", "modkwany_" + pname)
+                    ck_ = mem.cache(kw_any)
+                    for label, fn, plain in (("__call__", cm_, m_like), ("__call__", ck_, kw_any), ("call_and_shelve", cm_, m_like), ("call", cm_, m_like),
+                                             ("check_call_in_cache", cm_, m_like)):
+                        cases += 1
+                        want = plain(**{pname: 7})
+                        try:
+                            if label == "__call__":
+                                got = fn(**{pname: 7})
+                            elif label == "call_and_shelve":
+                                got = fn.call_and_shelve(**{pname: 7}).get()
+                            elif label == "call":
+                                got = fn.call(**{pname: 7})[0]
+                            else:
+                                got = want if fn.check_call_in_cache(**{pname: 7}) in (True, False) else None
+                        except TypeError as e:
+                            return dict(violation=True, cases=cases, what="the cached wrapper rejects a call the plain function accepts: %s(%s=7) raised %r" % (label, pname, e),
+                                        witness=dict(parameter_name=pname, entry_point=label))
+                        if got != want:
+                            return dict(violation=True, cases=cases, what="keyword %s=7 through %s gave %r instead of %r" % (pname, label, got, want), witness=pname)
+
         # ---------------- C12: changed definitions
         if which in ("all", "C12"):
             mem = Memory(os.path.join(root, "c2"), verbose=0)
